@@ -98,7 +98,13 @@ impl<'a> PrettyPrinter<'a> {
         }
         // Note that `ImportItem` does not implement `AstNode`.
         // On a line mixed with text nothing may be broken, or the next run sees a multiline node.
-        let fold_style = if ctx.break_suppressed {
+        // A line comment inside an item (`a as // c`) goes unnoticed by the list layout: the
+        // list must be broken for it, which also keeps the parentheses the line break needs.
+        let has_inner_line_comment =
+            (import_items_nodes.iter()).any(|node| has_line_comment_descendant(node));
+        let fold_style = if has_inner_line_comment {
+            FoldStyle::Never
+        } else if ctx.break_suppressed {
             FoldStyle::Always
         } else {
             FoldStyle::Fit
@@ -156,6 +162,11 @@ impl<'a> PrettyPrinter<'a> {
             }
         })
     }
+}
+
+fn has_line_comment_descendant(node: &SyntaxNode) -> bool {
+    node.children()
+        .any(|child| child.kind() == SyntaxKind::LineComment || has_line_comment_descendant(child))
 }
 
 fn has_comment_descendant(node: &SyntaxNode) -> bool {
